@@ -12,7 +12,7 @@ mod program;
 mod rt;
 
 use exec::{classify_deadlock, execute, make_ctx, Ctx, Failure};
-use program::{generate, GenConfig, Program, Rng};
+use program::{generate, generate_pipes, GenConfig, Program, Rng};
 
 use shuttle::scheduler::{DfsScheduler, PctScheduler, RandomScheduler, ReplayScheduler, Schedule, Scheduler, Task, TaskId};
 use shuttle::{Config, FailurePersistence, MaxSteps, Runner};
@@ -200,9 +200,14 @@ fn main() {
             } else {
                 let src = arg(&args, "--programs").expect("--programs");
                 if let Some(n) = src.strip_prefix("gen:") {
-                    let cfg = profile(arg(&args, "--gen-profile").unwrap_or("all"));
+                    let pname = arg(&args, "--gen-profile").unwrap_or("all");
                     let mut rng = Rng::new(seed);
-                    for i in 0..n.parse::<usize>().expect("count") { programs.push((format!("gen{}", i), generate(&mut rng, &cfg))); }
+                    if pname == "pipes" {
+                        for i in 0..n.parse::<usize>().expect("count") { programs.push((format!("pipe{}", i), generate_pipes(&mut rng))); }
+                    } else {
+                        let cfg = profile(pname);
+                        for i in 0..n.parse::<usize>().expect("count") { programs.push((format!("gen{}", i), generate(&mut rng, &cfg))); }
+                    }
                 } else {
                     let text = std::fs::read_to_string(src).expect("programs file");
                     for (i, line) in text.lines().enumerate() {
